@@ -30,7 +30,9 @@ LEVEL_TEXT = ("Seeded message histories (incl. boundary payloads: battery -3/0/1
               "that is saved through the real aiofiles + io stack to the simulated disk and loaded into an empty "
               "registry by a fresh Persistence object; every node/child attribute must be identical and load must not "
               "raise. Short device writes and executor latencies vary per run. The legacy pymysensors rendering of the "
-              "same registry must load to the same registry.")
+              "same registry must load to the same registry. A sixth of the scenarios are sessions of one living gateway "
+              "whose OWN persistence object saves at several points of a history with re-presentations, context re-entry "
+              "and process restarts; every image it writes must load to the registry as it was at that save.")
 LEVEL_NOTE = ("Trusted: simulated disk stores exactly the bytes written; directly constructed registries are limited "
               "to battery levels 0-100 (the range the loader documents); legacy files carry no sleeping flag, so the "
               "legacy comparison uses registries whose nodes are not sleeping.")
